@@ -204,6 +204,10 @@ func run(c *mc.Ctx, r *mc.Result) {
 	// the same with two fixed hostname routes whose hosts extend "a.b" by '-' and by '.': the node that
 	// ends the host "a.b" then has the edges '-', '.' and '/' (three children sorting around '/')
 	runWith(c, r, "pool.siblings", []string{"a.b-c/a", "a.b.c/a"})
+	// and with two fixed hostname routes whose static edges start like a shorter Host but are longer than what
+	// is left of it ("ab.b" against the Host "a.b" next to {h}.b, "a.bb" next to a.{t}): the static edge cannot
+	// be consumed, the parameter alternative of the same node must still be tried
+	runWith(c, r, "pool.long-edge", []string{"ab.b/a", "a.bb/a"})
 	runLong(c, r)
 }
 
